@@ -250,7 +250,7 @@ class Lifecycle(BaseEngine):
     name = 'lifecycle'
 
     def tiers(self, prop):
-        return {'quick': 300_000, 'thorough': 15_000_000}
+        return {'quick': 300_000, 'thorough': 8_000_000}
 
     # ---------------------------------------------------------------- generation
     def _gen_dev(self, rng, can_hang=True, split_ok=True):
